@@ -28,7 +28,7 @@ ASSUMPTIONS = [
     "relative tolerance 1e-9 for products/quotients of floats",
 ]
 BUDGET = {"quick": 2500, "thorough": 20000}
-REQUIRED_CLASSES = {"out-of-order": 50, "two-consecutive-silent-batches": 50}
+REQUIRED_CLASSES = {"out-of-order": 50, "two-consecutive-silent-batches": 50, "failed-requests-recorded-as-ops": 50}
 
 EPOCH = 1_700_000_000.0
 GAPS = [1 / 1024, 205 / 1024, 922 / 1024, 1126 / 1024, 5.0, 40.0]
@@ -45,7 +45,8 @@ def _client(draw):
     gaps = draw(st.lists(gap_idx, min_size=n, max_size=n))
     ops = draw(st.lists(st.sampled_from([0, 1, 1, 1, 2, 7, 100, 1000, 5000]) | st.integers(0, 5000), min_size=n, max_size=n))
     warmup = draw(st.integers(0, n))
-    return {"gaps": gaps, "ops": ops, "warmup": warmup}
+    # a failed request is recorded with 0 operations and the unit "ops" (execute_single), whatever the task's unit is
+    return {"gaps": gaps, "ops": ops, "warmup": warmup, "failures_as_ops": draw(st.sampled_from([False, False, True]))}
 
 
 @st.composite
@@ -135,7 +136,7 @@ def _build_streams(case):
                     GAPS[g],
                     tp,
                     ops,
-                    tspec["unit"],
+                    "ops" if (ops == 0 and c.get("failures_as_ops")) else tspec["unit"],
                     t,  # time_period: elapsed since this client started the task
                     None,
                 )
@@ -166,7 +167,9 @@ def _close(a, b):
     return abs(a - b) <= TOL * max(1.0, abs(a), abs(b))
 
 
-def _run_plan(tasks, streams, plan, obs, tag):
+def _run_plan(tasks, streams, plan, obs, tag, case_units=None):
+    case_units = case_units or [None] * len(tasks)
+    mixed_units = [False]
     store = _Store()
     pp = driver.SamplePostprocessor(store, 1, {}, {})
     batches = _batches(streams, plan)
@@ -212,7 +215,14 @@ def _run_plan(tasks, streams, plan, obs, tag):
                 max_silent_run[t] = max(max_silent_run[t], silent_run[t])
             total_delivered = sum(s.total_ops for s in delivered[t])
             for r in recs:
-                obs.check(r["unit"] == f"{ss[0].total_ops_unit}/s", "unit", f"{tag}: unit {r['unit']!r} for ops unit {ss[0].total_ops_unit!r}")
+                # the unit of a value is the unit of the sample it is reported at; at a failed request (0 "ops") the task's own unit is
+                # accepted as well (the statement does not say which of the two a value reported there should carry)
+                task_unit = case_units[idx]
+                at_samples = [x for x in ss if x.absolute_time == r["absolute_time"]] or ss
+                accepted = {f"{x.total_ops_unit}/s" for x in at_samples} | ({f"{task_unit}/s"} if any(x.total_ops_unit != task_unit for x in at_samples) else set())
+                obs.check(r["unit"] in accepted, "unit", f"{tag}: task{idx} unit {r['unit']!r} at a sample with ops unit {sorted(x.total_ops_unit for x in at_samples)} (task unit {task_unit!r})")
+                if any(x.total_ops_unit != task_unit for x in ss):
+                    mixed_units[0] = True
                 if not obs.check(isinstance(r["value"], (int, float)) and not isinstance(r["value"], bool), "not-a-number", f"{tag}: task{idx} throughput value {r['value']!r}"):
                     continue
                 obs.check(r["value"] >= 0, "negative", f"{tag}: negative throughput {r['value']}")
@@ -277,14 +287,17 @@ def _run_plan(tasks, streams, plan, obs, tag):
         )
         totals[idx] = (round(got, 3), recs[-1]["sample_type"])
     nt = any(nonempty_batches[t] >= 3 and max_silent_run[t] >= 2 for t in tasks)
+    if mixed_units[0]:
+        obs.cls("failed-requests-recorded-as-ops")
     return totals, nt, out_of_order
 
 
 def run_case(case, obs):
     tasks, streams = _build_streams(case)
-    ta, nt_a, ooo_a = _run_plan(tasks, streams, case["plan_a"], obs, "plan_a")
+    units = [t["unit"] for t in case["tasks"]]
+    ta, nt_a, ooo_a = _run_plan(tasks, streams, case["plan_a"], obs, "plan_a", units)
     tasks, streams = _build_streams(case)  # fresh Sample objects (dependent state is mutable)
-    tb, nt_b, ooo_b = _run_plan(tasks, streams, case["plan_b"], obs, "plan_b")
+    tb, nt_b, ooo_b = _run_plan(tasks, streams, case["plan_b"], obs, "plan_b", units)
     obs.check(ta == tb, "metamorphic", f"two batchings disagree: {ta} vs {tb}")
     if nt_a or nt_b:
         obs.cls("two-consecutive-silent-batches")
